@@ -23,4 +23,4 @@ Deliver, in {wt}/seeded_out/ :
 How to build and test (offline; no network): 
   cmake -G Ninja -S {wt} -B {wt}/_b -DCMAKE_BUILD_TYPE=RelWithDebInfo -DCMAKE_C_FLAGS=-Wno-error -DFIBER_RUN_TESTS_WITH_BUILD=OFF && cmake --build {wt}/_b && ctest --test-dir {wt}/_b -j8 --timeout 900
 (The suite has 35 tests and takes a few seconds; test_semaphore is known to be flaky; all others must pass with your change.) To link a demo against the library: gcc -O2 -fsplit-stack -DFIBER_STACK_SPLIT -I{wt}/include demo.c {wt}/_b/libfiber.a -lpthread -ldl -lm -o demo . Header-only containers (include/*.h) can be used from plain pthreads without the runtime.
-Verify all of it yourself: suite passes with the change; demo fails with the change and passes on the pristine tree (use `git stash` / `git checkout -- src include` to switch). Remove {wt}/_b when you are done. Report briefly what you changed and why it is hard to notice.""")
+Verify all of it yourself: suite passes with the change; demo fails with the change and passes on the pristine tree (do NOT use `git stash` (the stash is shared by all worktrees of this repository); use `git diff -- src include > mine.diff; git checkout -- src include; ...; git apply mine.diff` to switch). Remove {wt}/_b when you are done. Report briefly what you changed and why it is hard to notice.""")
